@@ -125,9 +125,13 @@ func checkFunc(P *Program, fn *ssa.Function, c *FuncContract, sweep bool) (rep *
 			vars["self"] = tv{v, prm.Type()}
 		}
 	}
-	for _, fv := range fn.FreeVars {
+	for fi, fv := range fn.FreeVars {
 		v := ex.symbolicInput(st, "free:"+fv.Name(), fv.Type())
 		st.vals[fv] = v
+		freeAlias := ""
+		if len(c.FreeNames) == len(fn.FreeVars) && c.FreeNames[fi] != fv.Name() {
+			freeAlias = c.FreeNames[fi]
+		}
 		// go/ssa captures a variable by value when it is never reassigned (then the free variable has the
 		// variable's own type); otherwise the free variable is a pointer to the variable's cell.
 		captured := false
@@ -140,6 +144,9 @@ func checkFunc(P *Program, fn *ssa.Function, c *FuncContract, sweep bool) (rep *
 		}
 		if captured {
 			vars[fv.Name()] = tv{v, fv.Type()}
+			if freeAlias != "" {
+				vars[freeAlias] = tv{v, fv.Type()}
+			}
 		} else {
 			ex.facts = append(ex.facts, p.Gt(v, p.Int(0)))
 			// captured by reference: the name denotes the variable's value at entry
@@ -150,6 +157,9 @@ func checkFunc(P *Program, fn *ssa.Function, c *FuncContract, sweep bool) (rep *
 				ex.facts = append(ex.facts, ex.tm.InRange(cur, pt.Elem(), 0))
 				ex.pointerBound(st, cur, pt.Elem())
 				vars[fv.Name()] = tv{cur, pt.Elem()}
+				if freeAlias != "" {
+					vars[freeAlias] = tv{cur, pt.Elem()}
+				}
 			}
 		}
 	}
